@@ -22,17 +22,17 @@ chk("C14","exploration",
  "bounded-exhaustive enumeration of (value, callback list) combinations against a first-match oracle","DESIGN.md 3 C14","onto")
 
 chk("C11","exploration",
- "Decoder: every type x every member name x 36 junk values x {scalar, list} through decode-encode-decode-encode (about 0.9 M documents) plus every vocabulary example with each node mutated; handlers: for each of ~65 scenarios covering all entry points, every JSON node of the request body and of every stored / dereferenced document the run reads is mutated by 19 operators one at a time (thorough: two at a time), plus whole-document replacements and recursion limits; the oracle is: no panic (recovered and attributed to the top library frame and its source line) and return within a seam-call horizon; shards run in worker processes so that a fatal error is attributed, not fatal to the check.",
+ "Decoder: every type x every member name x 36 junk values x {scalar, list} through decode-encode-decode-encode (about 0.9 M documents) plus every vocabulary example with each node mutated; handlers: for each of ~65 scenarios covering all entry points, every JSON node of the request body and of every stored / dereferenced document the run reads is mutated by 19 operators one at a time (thorough: two at a time), plus whole-document replacements and recursion limits; the oracle is: no panic (recovered and attributed to the top library frame and its source line) and return within a seam-call horizon; shards run in worker processes so that a fatal error is attributed, not fatal to the check; plus a supplementary concurrent-decode -race pass.",
  "Bounded junk alphabet and grammar mutations replace arbitrary byte strings (coverage-guided fuzzing is sampling and is not used). A hang that makes no seam call is caught only by the worker timeout.",
  "bounded-exhaustive mutation enumeration (deviation bound 1 / 2) over request bodies and environment documents","DESIGN.md 3 C11")
 
 chk("C02","exploration",
- "Federation graphs (actors dereferencable / with stored inbox / missing / garbled / unknown type, nested and cyclic collections and pages, Public in both spellings, the sender) x every ordered sequence of <= 2 (thorough 3) addressed entries x 3 placements over the five addressing properties x depth limits are delivered through Send and client POST on the real code; an independent recursive function over the graph description gives the expected inbox set and the set of IRIs that may be dereferenced; the BatchDeliver call must be single, duplicate-free and equal to the expected set.",
+ "Federation graphs (actors dereferencable / with stored inbox / missing / garbled / unknown type, nested and cyclic collections and pages, Public in both spellings, the sender) x every ordered sequence of <= 2 (thorough 3) addressed entries x 3 placements over the five addressing properties x depth limits are delivered through Send and client POST on the real code; an independent recursive function over the graph description gives the expected inbox set and the set of IRIs that may be dereferenced; the BatchDeliver call must be single, duplicate-free and equal to the expected set; plus all two-delivery histories through one Actor instance (same / different outbox).",
  "Trusted: the graph oracle; order of recipients and repeated dereferences are not asserted; non-actor / inbox-less documents are outside the alphabet.",
  "bounded-exhaustive enumeration of federation graphs and addressings against a reference model","DESIGN.md 3 C02")
 
 chk("C03","exploration",
- "Every outbox input shape (bare objects, Create with 1..2 (thorough 3) objects, Like/Announce/Update/Add with an embedded object, Follow) x 5 hidden-recipient options independently on the activity and each embedded object x to x 4 actor/entry combinations, automatic Accept/Reject of a Follow with hidden recipients, and the GET handler over every type that has 'object' with bto/bcc at object depth 0..3 in 4 list shapes are executed on the real code; every payload handed to the transport and every served body is parsed and searched for bto/bcc; hidden recipients must still be among the recipients.",
+ "Every outbox input shape (bare objects, Create with 1..2 (thorough 3) objects, Like/Announce/Update/Add with an embedded object, Follow) x 5 hidden-recipient options independently on the activity and each embedded object x to x 4 actor/entry combinations, automatic Accept/Reject of a Follow with hidden recipients, and the GET handler over every type that has 'object' with bto/bcc at object depth 0..3 in 4 list shapes are executed on the real code; every payload handed to the transport and every served body is parsed and searched for bto/bcc; hidden recipients must still be among the recipients; plus every single seam fault for a sample of inputs (no payload may carry bto/bcc whatever fails).",
  "Trusted: the application model's delivery log. Stored copies may keep bto/bcc; deeper nesting is not asserted for delivery payloads.",
  "bounded-exhaustive enumeration of addressing shapes against a payload scanner","DESIGN.md 3 C03")
 chk("C20","exploration",
